@@ -103,6 +103,7 @@ type interpreter struct {
 	inHarness          bool
 	locIDs             map[*value]int
 	rndNames           int
+	mon                *writeMon
 	sliceData          map[*value][]value
 	files              map[*value]int
 	fileData           map[int][][]value
@@ -327,6 +328,9 @@ func visitInstr(fr *frame, instr ssa.Instruction) continuation {
 		if addr == nil {
 			panic(targetPanic{rtErr("invalid memory address or nil pointer dereference")})
 		}
+		if fr.i.mon != nil {
+			fr.monitorStore(addr, "store")
+		}
 		store(mustDeref(instr.Addr.Type()), addr, fr.get(instr.Val))
 
 	case *ssa.If:
@@ -376,6 +380,10 @@ func visitInstr(fr *frame, instr ssa.Instruction) continuation {
 			addr = fr.env[instr].(*value)
 		}
 		*addr = zero(mustDeref(instr.Type()))
+		if m := fr.i.mon; m != nil {
+			m.cells[addr] = true
+			m.ownValue(*addr, 0)
+		}
 
 	case *ssa.MakeSlice:
 		ln, cp := fr.get(instr.Len), fr.get(instr.Cap)
@@ -399,6 +407,7 @@ func visitInstr(fr *frame, instr ssa.Instruction) continuation {
 		for i := range slice {
 			slice[i] = zero(tElt)
 		}
+		fr.i.mon.ownSlice(slice)
 		fr.env[instr] = slice[:n]
 
 	case *ssa.MakeMap:
@@ -409,7 +418,11 @@ func visitInstr(fr *frame, instr ssa.Instruction) continuation {
 		if !fitsInt(reserve, fr.i.sizes) {
 			panic(fmt.Sprintf("ssa.MakeMap.Reserve value %d does not fit in int", reserve))
 		}
-		fr.env[instr] = makeMap(instr.Type().Underlying().(*types.Map).Key(), reserve)
+		mm := makeMap(instr.Type().Underlying().(*types.Map).Key(), reserve)
+		if mon := fr.i.mon; mon != nil {
+			mon.maps[mm.(*omap)] = true
+		}
+		fr.env[instr] = mm
 
 	case *ssa.Range:
 		fr.env[instr] = fr.rangeIter(fr.get(instr.X), instr.X.Type())
@@ -491,6 +504,9 @@ func visitInstr(fr *frame, instr ssa.Instruction) continuation {
 		case *omap:
 			if m == nil {
 				panic(targetPanic{rtErr("assignment to entry in nil map")})
+			}
+			if mon := fr.i.mon; mon != nil && !mon.maps[m] && !harnessFrame(fr) {
+				fr.monitorViolation("map update")
 			}
 			m.insert(fr.i, key, v)
 		default:
@@ -703,6 +719,12 @@ func callSSA(i *interpreter, caller *frame, callpos token.Pos, fn *ssa.Function,
 	for i, l := range fn.Locals {
 		fr.locals[i] = zero(mustDeref(l.Type()))
 		fr.env[l] = &fr.locals[i]
+	}
+	if m := i.mon; m != nil && len(fr.locals) > 0 {
+		m.ownSlice(fr.locals)
+		for _, l := range fr.locals {
+			m.ownValue(l, 0)
+		}
 	}
 	for i, p := range fn.Params {
 		fr.env[p] = args[i]
